@@ -24,7 +24,7 @@ STATEMENTS = {
 }
 TRUSTED = [
     'raw file-object semantics of wsgi.input (read/readline with a short-read oracle) as modelled in WsgiStreamFixed.Raw',
-    'asyncio.wait_for(…, 0.3 s) deciding "blocked on receive()" for the implementation side',
+    'the scripted receive() raises a BaseException when it has nothing left to deliver: that is the "would block" outcome (no timeouts involved)',
 ]
 ASSUMPTIONS = [
     'sizes passed to read/readline/readlines are None or ints; Content-Length >= 0',
@@ -181,6 +181,9 @@ def _asgi(ctx):
         m = 'n' if 'more_body' not in e else ('t' if e['more_body'] else 'f')
         return f'R:{b}:{m}'
 
+    class _WouldBlock(BaseException):
+        pass
+
     sess = ctx.session('asgi-boundedstream = AsF model', 'asfdriver')
 
     async def one():
@@ -206,12 +209,12 @@ def _asgi(ctx):
         via_req = rnd.random() < 0.33
         first = events[0] if (via_req or rnd.random() < 0.9) else None
         q = list(events[1:]) if first is not None else list(events)
-        awaited = [0]; never = asyncio.get_running_loop().create_future()
+        awaited = [0]
 
         async def receive():
             awaited[0] += 1
             if q: return q.pop(0)
-            await never
+            raise _WouldBlock()     # the server has nothing more to deliver: the stream would wait forever (deterministic, no timeout)
         if via_req:
             hdrs = {} if cl is None else {'Content-Length': str(cl)}
             scope = ft.create_scope(method='POST', path='/', headers=hdrs)
@@ -241,12 +244,12 @@ def _asgi(ctx):
                 if op == 'read':
                     n = rnd.choice([None, -1, 0, 1, 2, 5, 100]); hist.append(['read', n])
                     line = f"read {'none' if n is None else n}"
-                    d = await asyncio.wait_for(s.read(n), 0.3); sess.op(line, 'data ' + hx(d) + st())
+                    d = await s.read(n); sess.op(line, 'data ' + hx(d) + st())
                     if n is not None and n >= 0 and len(d) > n: failed = f'read({n}) returned {len(d)} bytes'
                     out += d
                 elif op == 'readall':
                     hist.append(['readall']); line = 'readall'
-                    d = await asyncio.wait_for(s.readall(), 0.3); sess.op(line, 'data ' + hx(d) + st()); out += d
+                    d = await s.readall(); sess.op(line, 'data ' + hx(d) + st()); out += d
                 elif op == 'iter':
                     k = rnd.randint(1, 3); hist.append(['iter', k]); line = f'iter {k}'; acc = b''
 
@@ -257,17 +260,17 @@ def _asgi(ctx):
                             acc += ch; c += 1
                             if c >= k: break
                     try:
-                        await asyncio.wait_for(it(), 0.3)
+                        await it()
                     finally:
                         out += acc
                     sess.op(line, 'data ' + hx(acc) + st())
                 elif op == 'exhaust':
                     hist.append(['exhaust']); line = 'exhaust'
-                    await asyncio.wait_for(s.exhaust(), 0.3); sess.op(line, 'unit' + st()); exhausted = True
+                    await s.exhaust(); sess.op(line, 'unit' + st()); exhausted = True
                     if not s.eof: failed = 'eof is False after exhaust()'
                 else:
                     hist.append(['close']); line = 'close'; s.close(); sess.op(line, 'unit' + st())
-            except asyncio.TimeoutError:
+            except _WouldBlock:
                 sess.op(line, 'BLOCKED')
                 if complete: failed = f'{op} blocked on receive() although the server had delivered the end of the body / a disconnect'
                 break
